@@ -31,6 +31,19 @@ def g03_events(s):
     return (evs, None)
 
 
+def race_leg(ctx):
+    """C19: data-race reports of the Go race detector (the harness is built with -race) are direct
+    evidence from the real code; each report becomes a violation of demand C19.race."""
+    import glob as _g, os as _o
+    reports = []
+    for f in sorted(_g.glob(_o.path.join(ctx['scratch'], 'race-report*'))):
+        txt = open(f, errors='replace').read()
+        if 'DATA RACE' in txt:
+            reports.append(txt[:4000])
+    bads = [('C19.race', [{'op': 'r.reset', 'goroutines': 0, 'procs': 0, 'yield': False, 'st': 1, 'race_report': r}], 'race detector report') for r in reports[:3]]
+    return ({'kind': 'mbt', 'info': {'race_detector_reports': len(reports), 'built_with': 'go build -race -tags verif'}}, bads)
+
+
 PLANS = {
     'C01': {
         'mc': [{'module': 'MC_C01', 'what': '18 boundary years x every day x {ext,basic} x 8 limits: Parse(Fmt(d)) = d, canonical shape, Ordinal counts days'}],
@@ -198,5 +211,18 @@ PLANS = {
         'rule': 'every parsing / validating / comparing entry point of the five packages on seeded random bytes, fragment soups (invalid UTF-8, multi-byte runes, NUL, BOM), long runs and mutated valid texts, '
                 'under all rule subsets; limit matrix MaxInputLength in {0,1,default,default+1} x lengths {0,1,limit-1,limit,limit+1,limit+2,10x}; demands: no panic, too-long <=> over the limit, message does not echo the input',
         'assumptions': COMMON_ASSUMPTIONS + ['coverage-guided native fuzzing is not part of this technique: inputs are seeded and structured; allocation is not measured'],
+    },
+    'C19': {
+        'race': True,
+        'mc': [{'module': 'MC_C19', 'what': 'UURandom: 3 goroutines x 2 calls, all interleavings: mutual exclusion, consecutive draws, no sharing; liveness AllDone'},
+               {'module': 'MC_C19', 'cfg': 'MC_C19_nolock', 'expect_violation': 'Consecutive', 'what': 'negative control: without the lock TLC finds interleaved draws'}],
+        'drivers': [{'name': 'c19', 'shards': 4, 'race': True}],
+        'legs': [race_leg, 'apalache_masks'],
+        'codes': ['C19.'],
+        'rule': 'hook events (lock acquired / about to be released / draws received) and returned IDs of concurrent runs: 12 configurations of 1..64 goroutines x GOMAXPROCS 1..16, '
+                'with scheduler yields inside the critical section, ordered by an atomic counter inside the hooks; each run validated against the lock protocol, Compose, version/variant, '
+                'distinctness of all IDs of the run and both values of each of the 122 free bits; harness built with -race, reports raised as C19.race; Apalache proves the mask lemma for all 2^126 draw pairs',
+        'assumptions': COMMON_ASSUMPTIONS + ['the Go memory model is not modelled: the specification decides the lock protocol from hook traces; the race detector is an additional sensor',
+                                             'schedules are those the Go scheduler produced in this run (GOMAXPROCS 1..16, yields in the critical section); they are not enumerated'],
     },
 }
